@@ -2,8 +2,8 @@ import FitProps.LinkLemmasInteg
 import FitProps.LinkLemmasDefs
 /-!
 LINK (A) ↔ (D): the wire-level decoder of `FitModel/Wire.lean` (C01) against the reader-client model `FitModel/DecProg.lean`
-on the exact-n reader, in the common form `WEv`. The full link is false (`Links.Link_wire_full_false`: (A) has no field
-descriptions); here: the two agree on every stream on which (D) does not end with `invalidBaseType`.
+on the exact-n reader, in the common form `WEv`: the two agree on EVERY byte list — events, error class (the invalid base
+type of a field description a developer field refers to included: both keep the field descriptions of the sequence).
 -/
 set_option linter.unusedSimpArgs false
 set_option linter.unusedVariables false
@@ -98,39 +98,61 @@ theorem fieldsW {Φ : DecProg.Out → Prop} (chk : Bool) : ∀ (fds : List Wire.
           have hne : (fd.size != 0) = true := by simpa using hz
           simpa [payloadOf, hne, List.append_assoc] using this
 
-/-- `decodeDeveloperFields` of (D) against `takeDevs` of (A): the same bytes are consumed, unless (D) stops at a field
-description with an invalid base type -/
+theorem validBaseTypeW (b : Nat) : Wire.validBaseType b = DecProg.validBaseType b := by
+  by_cases h : b < 256
+  · have : ∀ b, b < 256 → Wire.validBaseType b = DecProg.validBaseType b := by decide +kernel
+    exact this b h
+  · have h1 : DecProg.validBaseType b = false := by
+      simp only [DecProg.validBaseType, Fit.Gen.Integ.validBaseTypes, List.contains_eq_mem, List.mem_cons, List.not_mem_nil,
+        or_false, decide_eq_false_iff_not]
+      omega
+    have h2 : Wire.validBaseType b = false := by
+      simp only [Wire.validBaseType, Bool.or_eq_false_iff, beq_eq_false_iff_ne, ne_eq]
+      omega
+    rw [h1, h2]
+
+/-- (A)'s and (D)'s reading of a `field_description` message are the same function: the literals of FitModel/Wire.lean
+(206; fields 0, 1, 2; 255) are the constants regenerated from the source -/
+theorem noteDescW (descs : List DecProg.Triplet) (mesgNum : Nat) (fs : List (Wire.FieldDef × List Nat)) :
+    (if mesgNum = Fit.Gen.Integ.mesgNumFieldDescription then
+      descs ++ [(DecProg.lastVal (payloadOf fs) Fit.Gen.Integ.fdDeveloperDataIndex,
+                 DecProg.lastVal (payloadOf fs) Fit.Gen.Integ.fdFieldDefinitionNumber,
+                 DecProg.lastVal (payloadOf fs) Fit.Gen.Integ.fdFitBaseTypeId)]
+      else descs) = Wire.noteDesc descs mesgNum fs := rfl
+
+/-- `decodeDeveloperFields` of (D) against `takeDevs` of (A), under the same field descriptions: the same bytes are consumed
+and both stop — with the same error class — at a developer field whose field description has an invalid base type -/
 theorem devsW {Φ : DecProg.Out → Prop} (chk : Bool) (descs : List DecProg.Triplet) : ∀ (dds : List Wire.DevDef) (st : DecProg.St)
     (acc : List (Nat × Nat × Bytes)) (k : DecProg.St → List (Nat × Nat × Bytes) → DecProg.P) (rest : Bytes),
-    (∀ st', st'.evs = st.evs → Φ (DecProg.fail st' .invalidBaseType)) →
-    (match Wire.takeDevs dds rest with
-      | .error _ => ∀ st' e, st'.evs = st.evs → Φ (DecProg.fail st' (.io e))
+    (match Wire.takeDevs descs dds rest with
+      | .error e => ∀ st' e', st'.evs = st.evs → errAofD e' = e → Φ (DecProg.fail st' e')
       | .ok (ds, rest') => ∀ st' acc', Same st st' → AdvW chk st st' rest rest' → Φ (runExact (k st' acc') rest')) →
     Φ (runExact (DecProg.devFields chk descs (dds.map tripWD) st acc k) rest)
-  | [], st, acc, k, rest, _, h => by
+  | [], st, acc, k, rest, h => by
     simp only [Wire.takeDevs] at h
     have := h st acc (Same.refl _) (AdvW.refl _ _ _)
     simpa [DecProg.devFields] using this
-  | dd :: dds, st, acc, k, rest, hinv, h => by
+  | dd :: dds, st, acc, k, rest, h => by
     simp only [List.map_cons, tripWD, DecProg.devFields]
     unfold Wire.takeDevs at h
     -- reading `dd.size` bytes and going on, whatever is collected
-    have hread : ∀ (g : Bytes → List (Nat × Nat × Bytes)),
+    have hread : Wire.descInvalid descs dd = false → ∀ (g : Bytes → List (Nat × Nat × Bytes)),
         Φ (runExact (DecProg.rdN chk dd.size st fun b st => DecProg.devFields chk descs (dds.map tripWD) st (g b) k) rest) := by
-      intro g
+      intro hdi g
+      simp only [hdi, Bool.false_eq_true, if_false] at h
       apply rdN_W
       · intro hl e
         simp only [hl, if_true] at h
-        exact h st e rfl
+        exact h st (.io e) rfl rfl
       · intro hl st1 hs1 ha1
         have hnl : ¬ rest.length < dd.size := by omega
         simp only [hnl, if_false] at h
-        apply devsW chk descs dds st1 _ k (rest.drop dd.size) (fun st' he => hinv st' (he.trans hs1.evs))
-        cases ht : Wire.takeDevs dds (rest.drop dd.size) with
+        apply devsW chk descs dds st1 _ k (rest.drop dd.size)
+        cases ht : Wire.takeDevs descs dds (rest.drop dd.size) with
         | error e =>
           rw [ht] at h
           simp only at h ⊢
-          intro st' e' he; exact h st' e' (he.trans hs1.evs)
+          intro st' e' he hee; exact h st' e' (he.trans hs1.evs) hee
         | ok p =>
           obtain ⟨ds, rest'⟩ := p
           rw [ht] at h
@@ -138,25 +160,32 @@ theorem devsW {Φ : DecProg.Out → Prop} (chk : Bool) (descs : List DecProg.Tri
           intro st' acc' hs ha
           exact h st' acc' (hs1.trans hs) (ha1.trans ha)
     cases hf : descs.find? fun d => d.1 = dd.idx ∧ d.2.1 = dd.num with
-    | none => exact hread (fun _ => acc)
+    | none =>
+      have hdi : Wire.descInvalid descs dd = false := by simp only [Wire.descInvalid, Wire.findDesc, hf]
+      exact hread hdi (fun _ => acc)
     | some d =>
       simp only
       by_cases hv : (!DecProg.validBaseType d.2.2) = true
-      · simp only [hv, if_true, runExact]
-        exact hinv st rfl
-      · simp only [hv, Bool.false_eq_true, if_false]
+      · have hdi : Wire.descInvalid descs dd = true := by
+          simp only [Wire.descInvalid, Wire.findDesc, hf, validBaseTypeW, hv]
+        simp only [hdi, if_true] at h
+        simp only [hv, if_true, runExact]
+        exact h st .invalidBaseType rfl rfl
+      · have hdi : Wire.descInvalid descs dd = false := by
+          simp only [Wire.descInvalid, Wire.findDesc, hf, validBaseTypeW]; simpa using hv
+        simp only [hv, Bool.false_eq_true, if_false]
         by_cases hz : dd.size = 0
         · simp only [hz, if_true]
-          simp only [hz, Nat.not_lt_zero, if_false, List.drop_zero, List.take_zero] at h
-          apply devsW chk descs dds st acc k rest hinv
-          cases ht : Wire.takeDevs dds rest with
+          simp only [hdi, Bool.false_eq_true, if_false, hz, Nat.not_lt_zero, List.drop_zero, List.take_zero] at h
+          apply devsW chk descs dds st acc k rest
+          cases ht : Wire.takeDevs descs dds rest with
           | error e => rw [ht] at h; exact h
           | ok p =>
             obtain ⟨ds, rest'⟩ := p
             rw [ht] at h
             exact h
         · simp only [hz, if_false]
-          exact hread (fun b => acc ++ [(dd.num, dd.idx, b)])
+          exact hread hdi (fun b => acc ++ [(dd.num, dd.idx, b)])
 
 /-! ### definitions -/
 
@@ -197,19 +226,6 @@ theorem parseDevDefsW : ∀ (n : Nat) (bs : Bytes),
     · have hl' : ¬ (n + 1) * 3 ≤ (a :: b :: c :: bs).length := by simp; omega
       simp only [hl, hl', if_false]
 
-theorem validBaseTypeW (b : Nat) : Wire.validBaseType b = DecProg.validBaseType b := by
-  by_cases h : b < 256
-  · have : ∀ b, b < 256 → Wire.validBaseType b = DecProg.validBaseType b := by decide +kernel
-    exact this b h
-  · have h1 : DecProg.validBaseType b = false := by
-      simp only [DecProg.validBaseType, Fit.Gen.Integ.validBaseTypes, List.contains_eq_mem, List.mem_cons, List.not_mem_nil,
-        or_false, decide_eq_false_iff_not]
-      omega
-    have h2 : Wire.validBaseType b = false := by
-      simp only [Wire.validBaseType, Bool.or_eq_false_iff, beq_eq_false_iff_ne, ne_eq]
-      omega
-    rw [h1, h2]
-
 theorem tripWF_fdOfT (l : List DecProg.Triplet) : (l.map fdOfT).map tripWF = l := by
   induction l with
   | nil => rfl
@@ -223,6 +239,7 @@ theorem tripWD_ddOfT (l : List DecProg.Triplet) : (l.map ddOfT).map tripWD = l :
 /-- the states of (D) and (A) agree on the live definitions, and the events (D) has reported so far are `seen` -/
 structure RelW (st : DecProg.St) (s : Wire.DecState) (seen : List WEv) : Prop where
   defs : st.defs = s.defs.map (fun p => (p.1, defOfW p.2))
+  descs : st.descs = s.descs
   evs : st.evs.reverse.map wevOfD = seen
 
 theorem lookupW {st : DecProg.St} {s : Wire.DecState} {seen : List WEv} (h : RelW st s seen) (i : Nat) :
@@ -242,15 +259,17 @@ theorem takeFields_err : ∀ (fds : List Wire.FieldDef) (bs : Bytes) (e : Wire.E
       | error e' => rw [ht] at h; simp only at h; cases h; exact takeFields_err fds _ _ ht
       | ok p => rw [ht] at h; simp at h
 
-theorem takeDevs_err : ∀ (fds : List Wire.DevDef) (bs : Bytes) (e : Wire.Err), Wire.takeDevs fds bs = .error e → e = .eof
-  | [], bs, e, h => by simp [Wire.takeDevs] at h
-  | fd :: fds, bs, e, h => by
-    unfold Wire.takeDevs at h
-    split at h
-    · cases h; rfl
-    · cases ht : Wire.takeDevs fds (bs.drop fd.size) with
-      | error e' => rw [ht] at h; simp only at h; cases h; exact takeDevs_err fds _ _ ht
-      | ok p => rw [ht] at h; simp at h
+theorem trackTs_descs (known : Bool) (arch : Nat) (st : Wire.DecState) (fs : List (Wire.FieldDef × Bytes)) :
+    (Wire.trackTs known arch st fs).descs = st.descs := by
+  unfold Wire.trackTs
+  induction fs generalizing st with
+  | nil => rfl
+  | cons p fs ih =>
+    simp only [List.foldl_cons]
+    rw [ih]
+    split
+    · split <;> rfl
+    · rfl
 
 theorem trackTs_defs (known : Bool) (arch : Nat) (st : Wire.DecState) (fs : List (Wire.FieldDef × Bytes)) :
     (Wire.trackTs known arch st fs).defs = st.defs := by
@@ -272,7 +291,6 @@ theorem AdvW.len {chk : Bool} {st st' : DecProg.St} {rest rest' : List Nat} (h :
 /-- **one record**: `decodeMessage` of (D) on the exact-n reader against `decodeRecord` of (A) -/
 theorem recordW {Φ : DecProg.Out → Prop} (tsKnown : Nat → Bool) (chk : Bool) (st : DecProg.St) (s : Wire.DecState)
     (seen : List WEv) (k : DecProg.St → DecProg.P) (rest : Bytes) (hrel : RelW st s seen)
-    (hinv : ∀ st', st'.evs = st.evs → Φ (DecProg.fail st' .invalidBaseType))
     (h : match Wire.decodeRecord tsKnown s rest with
       | .error e => ∀ st' e', st'.evs = st.evs → errAofD e' = e → Φ (DecProg.fail st' e')
       | .ok (it, s', rest') => ∀ st', RelW st' s' (seen ++ [wevOfA (.item it)]) → AdvW chk st st' rest rest' →
@@ -358,6 +376,8 @@ theorem recordW {Φ : DecProg.Out → Prop} (tsKnown : Nat → Bool) (chk : Bool
             · constructor
               · simp only [List.map_cons, defOfW, tripWF_fdOfT, tripWD_ddOfT]
                 rw [hsl.defs, hrel.defs]; rfl
+              · show stl.descs = s.descs
+                rw [hsl.descs, hrel.descs]
               · simp only [List.reverse_cons, List.map_append, List.map_cons, List.map_nil]
                 rw [hsl.evs, hrel.evs]
                 have e1 : ∀ l : List DecProg.Triplet, List.map ((fun f : Wire.FieldDef => (f.num, f.size, f.bt)) ∘ fdOfT) l = l := by
@@ -443,7 +463,7 @@ theorem recordW {Φ : DecProg.Out → Prop} (tsKnown : Nat → Bool) (chk : Bool
           have : (hb &&& 0x80 == 0x80) = false := by simpa using hc
           simp only [hc', if_false, this, Bool.false_eq_true]; rfl
       rw [hloc]
-      have hrel1 : RelW st1 s seen := ⟨by rw [hs1.defs]; exact hrel.defs, by rw [hs1.evs]; exact hrel.evs⟩
+      have hrel1 : RelW st1 s seen := ⟨by rw [hs1.defs]; exact hrel.defs, by rw [hs1.descs]; exact hrel.descs, by rw [hs1.evs]; exact hrel.evs⟩
       rw [lookupW hrel1]
       cases hlk : s.lookup ((if (hb &&& 0x80 == 0x80) = true then (hb &&& 0x60) >>> 5 else hb) &&& 0xF) with
       | none =>
@@ -456,8 +476,8 @@ theorem recordW {Φ : DecProg.Out → Prop} (tsKnown : Nat → Bool) (chk : Bool
         apply fieldsW chk d.fields st1 [] _ bs
         generalize hs0 : (if (hb &&& 0x80 == 0x80) = true then
             (match Wire.decompressHdr s hb with | (s', t) => (s', some t)) else (s, none)) = s0ts at h
-        have hs0d : s0ts.1.defs = s.defs := by
-          rw [← hs0]; split <;> rfl
+        have hs0d : s0ts.1.defs = s.defs ∧ s0ts.1.descs = s.descs := by
+          rw [← hs0]; split <;> exact ⟨rfl, rfl⟩
         obtain ⟨s1', ts⟩ := s0ts
         simp only at h hs0d
         cases htf : Wire.takeFields d.fields bs with
@@ -473,16 +493,16 @@ theorem recordW {Φ : DecProg.Out → Prop} (tsKnown : Nat → Bool) (chk : Bool
           rw [htf] at h
           simp only [List.nil_append] at h ⊢
           intro st2 hs2 ha2
-          refine devsW chk _ d.devs _ [] _ bs1 ?_ ?_
-          · intro st' he; exact hinv st' (he.trans (hs2.evs.trans hs1.evs))
-          cases htd : Wire.takeDevs d.devs bs1 with
+          have hdescs : st2.descs = (Wire.trackTs (tsKnown d.mesgNum) d.arch s1' fs).descs := by
+            rw [hs2.descs, hs1.descs, hrel.descs, trackTs_descs, hs0d.2]
+          rw [noteDescW, hdescs]
+          refine devsW chk _ d.devs _ [] _ bs1 ?_
+          cases htd : Wire.takeDevs (Wire.noteDesc (Wire.trackTs (tsKnown d.mesgNum) d.arch s1' fs).descs d.mesgNum fs) d.devs bs1 with
           | error e =>
             rw [htd] at h
             simp only at h ⊢
-            have := takeDevs_err _ _ _ htd
-            subst this
-            intro st' e' he
-            exact h st' (.io e') (he.trans (hs2.evs.trans hs1.evs)) rfl
+            intro st' e' he hee
+            exact h st' e' (he.trans (hs2.evs.trans hs1.evs)) hee
           | ok q =>
             obtain ⟨ds, bs2⟩ := q
             rw [htd] at h
@@ -493,7 +513,9 @@ theorem recordW {Φ : DecProg.Out → Prop} (tsKnown : Nat → Bool) (chk : Bool
               · simp only
                 rw [hs3.defs]
                 simp only
-                rw [hs2.defs, hs1.defs, hrel.defs, trackTs_defs, hs0d]
+                rw [hs2.defs, hs1.defs, hrel.defs, trackTs_defs, hs0d.1]
+              · simp only
+                rw [hs3.descs]
               · simp only [List.reverse_cons, List.map_append, List.map_cons, List.map_nil]
                 rw [hs3.evs]
                 simp only
@@ -509,8 +531,7 @@ theorem recordW {Φ : DecProg.Out → Prop} (tsKnown : Nat → Bool) (chk : Bool
 def itemsW (items : List Wire.Item) : List WEv := items.map fun it => wevOfA (.item it)
 
 /-- **the record loop**: `decodeMessages` of (D) against `decodeRecords` of (A) -/
-theorem recordsW {Φ : DecProg.Out → Prop} (tsKnown : Nat → Bool) (chk : Bool) (ds : Nat) (k : DecProg.St → DecProg.P)
-    (hinv : ∀ st', Φ (DecProg.fail st' .invalidBaseType)) :
+theorem recordsW {Φ : DecProg.Out → Prop} (tsKnown : Nat → Bool) (chk : Bool) (ds : Nat) (k : DecProg.St → DecProg.P) :
     ∀ (fuelA fuelD : Nat) (st : DecProg.St) (s : Wire.DecState) (seen : List WEv) (bs : Bytes) (remaining : Nat),
     RelW st s seen → bs.length ≤ fuelA → ds ≤ st.cur + fuelD → remaining = ds - st.cur →
     (match Wire.decodeRecords tsKnown fuelA s remaining bs with
@@ -549,7 +570,7 @@ theorem recordsW {Φ : DecProg.Out → Prop} (tsKnown : Nat → Bool) (chk : Boo
       obtain ⟨f, rfl⟩ : ∃ f, fuelD = f + 1 := ⟨fuelD - 1, by omega⟩
       unfold DecProg.messages
       simp only [hlt, if_true]
-      apply recordW tsKnown chk st s seen _ bs hrel (fun st' _ => hinv st')
+      apply recordW tsKnown chk st s seen _ bs hrel
       cases hd : Wire.decodeRecord tsKnown s bs with
       | error e =>
         rw [hd] at h
@@ -682,16 +703,12 @@ theorem headerW (chk : Bool) (bs : List Nat) :
 
 /-! ### the `Next`/`Decode` loop -/
 
-/-- the observable of the run is `R`, unless the run ends with (D)'s `invalidBaseType` -/
-def QW (R : List WEv × Option Wire.Err) (out : DecProg.Out) : Prop :=
-  out.status ≠ some .invalidBaseType → wireObsD out = R
-
-theorem QW_inv (R : List WEv × Option Wire.Err) (st : DecProg.St) : QW R (DecProg.fail st .invalidBaseType) := by
-  intro h; exact absurd rfl h
+/-- the observable of the run is `R` -/
+def QW (R : List WEv × Option Wire.Err) (out : DecProg.Out) : Prop := wireObsD out = R
 
 theorem QW_fail (st : DecProg.St) (e : DecProg.Err) (seen : List WEv) (h : st.evs.reverse.map wevOfD = seen) :
     QW (seen, some (errAofD e)) (DecProg.fail st e) := by
-  intro _; simp [wireObsD, DecProg.fail, h]
+  simp [QW, wireObsD, DecProg.fail, h]
 
 /-- one iteration of (A)'s loop when the header decodes -/
 theorem decodeStream_succ (tsKnown : Nat → Bool) (chk : Bool) (fuel : Nat) (first : Bool) (bs : Bytes) (hd : Wire.DecHdr) (rest : Bytes)
@@ -735,8 +752,8 @@ theorem streamW (tsKnown : Nat → Bool) (chk : Bool) : ∀ (fuel : Nat) (first 
   intro fuel
   induction fuel with
   | zero =>
-    intro first evs bs _
-    simp [Wire.decodeStream, DecProg.decodeLoop, runExact, wireObsD]
+    intro first evs bs
+    simp [QW, Wire.decodeStream, DecProg.decodeLoop, runExact, wireObsD]
   | succ fuel ih =>
     intro first evs bs
     unfold DecProg.decodeLoop
@@ -745,14 +762,12 @@ theorem streamW (tsKnown : Nat → Bool) (chk : Bool) : ∀ (fuel : Nat) (first 
     · -- empty stream
       intro hbs
       subst hbs
-      intro _
-      cases first <;> simp [Wire.decodeStream, Wire.decodeHeader, Wire.decodeFit, runExact, wireObsD, DecProg.Err.endsIteration, errAofD, Except.toOption]
+      cases first <;> simp [QW, Wire.decodeStream, Wire.decodeHeader, Wire.decodeFit, runExact, wireObsD, DecProg.Err.endsIteration, errAofD, Except.toOption]
     · -- the header does not decode
       intro e' r hne he hends
       rw [he] at hA
       simp only at hA
-      intro _
-      cases first <;> simp [Wire.decodeStream, Wire.decodeFit, hA, runExact, wireObsD, hends, errAofD_eq, Except.toOption]
+      cases first <;> simp [QW, Wire.decodeStream, Wire.decodeFit, hA, runExact, wireObsD, hends, errAofD_eq, Except.toOption]
     · -- the header decodes
       intro h rest he
       rw [he] at hA
@@ -762,8 +777,8 @@ theorem streamW (tsKnown : Nat → Bool) (chk : Bool) : ∀ (fuel : Nat) (first 
       rw [hds] at hAS
       rcases hdr : Wire.decodeRecords tsKnown rest.length Wire.DecState.fresh h.dataSize rest with ⟨items, r⟩
       rw [hdr] at hAS
-      apply recordsW tsKnown chk h.dataSize _ (QW_inv _) rest.length h.dataSize { evs := evs } Wire.DecState.fresh
-        (evs.reverse.map wevOfD) rest h.dataSize ⟨rfl, rfl⟩ (Nat.le_refl _) (by simp) (by simp)
+      apply recordsW tsKnown chk h.dataSize _ rest.length h.dataSize { evs := evs } Wire.DecState.fresh
+        (evs.reverse.map wevOfD) rest h.dataSize ⟨rfl, rfl, rfl⟩ (Nat.le_refl _) (by simp) (by simp)
       rw [hdr]
       cases r with
       | error e =>
@@ -823,8 +838,8 @@ theorem streamW (tsKnown : Nat → Bool) (chk : Bool) : ∀ (fuel : Nat) (first 
             rw [hAS]
             have hih := ih false (DecProg.Ev.seq h.size (((bs.drop 1).take (h.size - 1)).headD 0)
               (DecProg.le16 (((bs.drop 1).take (h.size - 1)).drop 1)) h.dataSize h.crc (c0 + 256 * c1) st'.msgs :: st'.evs) rest3
-            intro hst
-            rw [hih hst]
+            show wireObsD _ = _
+            rw [show wireObsD _ = _ from hih]
             simp [hev, itemsW, List.map_map, Function.comp_def, wevOfD, wevOfA, hdrW, List.append_assoc]
 
 end Fit.Link
